@@ -7,7 +7,10 @@
    modelled attributes.
 
    This file proves that the generated functions compute exactly [step] of Model.v (binary64 classifiers, the
-   current variant) on every state, configuration and operation.  What stays outside: the lock discipline (Gen_C09.v
+   current variant) on every state, configuration and operation.  The configuration attributes are fields of the
+   generated record like any other attribute; an assignment to one of them on the live object ([SetMaxOps] ...
+   [SetIdleTimeout]) is the generated field update, and the methods read the fields at call time: [tproj] of the
+   model's configuration IN FORCE ([cfg_step]) and state.  What stays outside: the lock discipline (Gen_C09.v
    and [no_self_deadlock]), the event log and printing, and the assumption that callbacks return. *)
 From Coq Require Import ZArith Bool List PrimFloat.
 From Verif Require Import C09.Model C09.Proofs gen.Gen_C09_impl.
@@ -31,13 +34,19 @@ Definition gstep (g : gtel) (t : Z) (o : op) : gtel * outcome * list trans :=
   | Terminate => t_terminate g t
   | Reset => t_reset g t
   | Advance _ => (g, Ret RNone, [])
+  | SetMaxOps n => (t_set_max_ops g n, Ret RNone, [])
+  | SetErrThreshold n => (t_set_err_threshold g n, Ret RNone, [])
+  | SetAllowRenewal b => (t_set_allow_renewal g b, Ret RNone, [])
+  | SetMaxLifetime l => (t_set_max_lifetime g l, Ret RNone, [])
+  | SetIdleTimeout l => (t_set_idle_timeout g l, Ret RNone, [])
   end.
 
 Ltac unf_all :=
   unfold gstep, step, t_start, t_tick, t_record_error, t_heartbeat, t_check_timeouts, t_renew,
          t_trigger_apoptosis, t_terminate, t_reset, t_check_senescence, t_enter_senescence, t_transition_to,
          do_start, do_tick, tick_body, do_record_error, do_check_timeouts, do_renew, renew_amount, limit_passed,
-         enter_senescence, can_senesce, transition_to, set_phase, is_dead, current, depleted_f64, rate_hit_f64, tproj.
+         enter_senescence, can_senesce, transition_to, set_phase, is_dead, current, depleted_f64, rate_hit_f64, tproj,
+         cfg_step.
 
 Ltac atom_of b :=
   lazymatch b with
@@ -67,17 +76,14 @@ Ltac split_all :=
 
 Theorem gstep_ok : forall cfg s o,
   gstep (tproj cfg s) (now s) o =
-  (tproj cfg (fst (fst (step depleted_f64 rate_hit_f64 current cfg s o))),
+  (tproj (cfg_step cfg o) (fst (fst (step depleted_f64 rate_hit_f64 current cfg s o))),
    snd (fst (step depleted_f64 rate_hit_f64 current cfg s o)),
    snd (step depleted_f64 rate_hit_f64 current cfg s o)).
 Proof.
   intros [mo et ar ml it] [p l oc ec rn sr sa la t] o.
-  destruct o as [ | c | | | | a r | | | | d]; destruct p; unf_all;
+  destruct o as [ | c | | | | a r | | | | d | n | n | b | lt | lt]; destruct p; unf_all;
     cbv beta iota zeta delta -[andb orb negb Z.leb Z.ltb Z.eqb Z.add Z.sub Z.max Z.min z2f PrimFloat.leb PrimFloat.div];
     split_all; try reflexivity.
-
-
-
 Qed.
 
 (* ---------------------------------------------------------------------- *)
@@ -104,18 +110,19 @@ Lemma now_step cfg s o : now (step_state D R current cfg s o) = clock_after (now
 Proof.
   unfold step_state.
   destruct cfg as [mo et ar ml it], s as [p l oc ec rn sr sa la t].
-  destruct o as [ | c | | | | a r | | | | d]; destruct p; unf_all;
+  destruct o as [ | c | | | | a r | | | | d | n | n | b | lt | lt]; destruct p; unf_all;
     cbv beta iota zeta delta -[andb orb negb Z.leb Z.ltb Z.eqb Z.add Z.sub Z.max Z.min z2f PrimFloat.leb PrimFloat.div];
     split_all; reflexivity.
 Qed.
 
 Theorem gexec_ok : forall ops cfg s,
-  gexec (tproj cfg s) (now s) ops = (tproj cfg (exec D R current cfg s ops), now (exec D R current cfg s ops)).
+  gexec (tproj cfg s) (now s) ops =
+  (tproj (cfg_exec cfg ops) (exec D R current cfg s ops), now (exec D R current cfg s ops)).
 Proof.
-  induction ops as [|o rest IH]; intros cfg s; cbn [gexec exec]; [reflexivity|].
+  induction ops as [|o rest IH]; intros cfg s; cbn [gexec exec cfg_exec]; [reflexivity|].
   rewrite gstep_ok. cbn [fst snd]. rewrite <- (now_step cfg s o).
   change (fst (fst (step D R current cfg s o))) with (step_state D R current cfg s o).
-  apply (IH cfg (step_state D R current cfg s o)).
+  apply (IH (cfg_step cfg o) (step_state D R current cfg s o)).
 Qed.
 
 Theorem gstream_ok : forall ops cfg s,
@@ -125,12 +132,12 @@ Proof.
   rewrite gstep_ok. cbn [fst snd]. rewrite <- (now_step cfg s o).
   change (fst (fst (step D R current cfg s o))) with (step_state D R current cfg s o).
   change (snd (step D R current cfg s o)) with (step_trans D R current cfg s o).
-  f_equal. apply (IH cfg (step_state D R current cfg s o)).
+  f_equal. apply (IH (cfg_step cfg o) (step_state D R current cfg s o)).
 Qed.
 
 Lemma gen_history_ok : forall ops cfg s,
     gexec (tproj cfg s) (now s) ops =
-      (tproj cfg (exec D R current cfg s ops), now (exec D R current cfg s ops)) /\
+      (tproj (cfg_exec cfg ops) (exec D R current cfg s ops), now (exec D R current cfg s ops)) /\
     gstream (tproj cfg s) (now s) ops = stream D R current cfg s ops.
 Proof. intros ops cfg s. exact (conj (gexec_ok ops cfg s) (gstream_ok ops cfg s)). Qed.
 
@@ -145,12 +152,28 @@ Proof.
   exact (terminated_absorbing_proof D R cfg ops s H1 H2).
 Qed.
 
-Lemma gen_length_in_range : forall cfg ops,
-    0 <= max_ops cfg -> Forall valid_op ops ->
-    0 <= t_len (fst (gexec (tproj cfg (init cfg)) (now (init cfg)) ops)) <= max_ops cfg.
+Lemma gen_length_in_range : forall cfg ops M,
+    0 <= max_ops cfg <= M -> Forall valid_op ops -> Forall (max_ops_within M) ops ->
+    0 <= t_len (fst (gexec (tproj cfg (init cfg)) (now (init cfg)) ops)) <= M.
 Proof.
-  intros cfg ops H1 H2. rewrite gexec_ok. cbn [fst tproj t_len].
-  exact (length_in_range_proof D R cfg ops H1 H2).
+  intros cfg ops M H1 H2 H3. rewrite gexec_ok. cbn [fst tproj t_len].
+  exact (length_in_range_proof D R cfg ops M H1 H2 H3).
+Qed.
+
+(* a permission revoked on the live generated object is honoured by the generated renew: refused, nothing changed *)
+Lemma gen_renew_refused_after_revocation : forall cfg s ops ops' a re,
+    Forall (fun o => assigns_allow_renewal o = false) ops' ->
+    let g := fst (gexec (tproj cfg s) (now s) (ops ++ SetAllowRenewal false :: ops')) in
+    let t := snd (gexec (tproj cfg s) (now s) (ops ++ SetAllowRenewal false :: ops')) in
+    t_allow_renewal g = false /\ t_renew g t a re = (g, Ret (RBool false), []).
+Proof.
+  intros cfg s ops ops' a re H g t. subst g t. rewrite gexec_ok. cbn [fst snd].
+  pose proof (gstep_ok (cfg_exec cfg (ops ++ SetAllowRenewal false :: ops'))
+                       (exec D R current cfg s (ops ++ SetAllowRenewal false :: ops')) (Renew a re)) as G.
+  rewrite (renew_refused_after_revocation_proof D R cfg s ops ops' a re H) in G.
+  cbn [gstep fst snd cfg_step] in G.
+  destruct (config_last_assignment_proof cfg ops ops') as (_ & _ & C & _).
+  split; [exact (C false H)|exact G].
 Qed.
 
 (* ---------------------------------------------------------------------- *)
@@ -162,12 +185,17 @@ Definition gobs_row (g : gtel) (r : outcome) (tr : list trans) : list Z :=
    reason_code (t_sen_reason g); ot_code (t_started_at g); ot_code (t_last_activity g)]
   ++ flat_map (fun t : trans => [phase_code (fst t); phase_code (snd t)]) tr.
 
+Definition gcfg_row (g : gtel) : list Z :=
+  [t_max_ops g; t_err_threshold g; (if t_allow_renewal g then 1 else 0);
+   ot_code (t_max_lifetime g); ot_code (t_idle_timeout g)].
+
 Fixpoint grun_obs (g : gtel) (t : Z) (ops : list op) : list (list Z) :=
   match ops with
   | [] => []
   | o :: rest =>
       let '(g', r, tr) := gstep g t o in
-      gobs_row g' r tr :: grun_obs g' (clock_after t o) rest
+      (gobs_row g' r tr ++ (if is_assignment o then gcfg_row g' else []))
+      :: grun_obs g' (clock_after t o) rest
   end.
 
 Definition grun_case (c : case) : list (list Z) :=
